@@ -99,3 +99,11 @@ func VerifNewDatasetManager(datasets ...*Dataset) *DatasetManager {
 	}
 	return dm
 }
+
+// VerifBatchResult converts the (unexported) per-item error map delivered by batch applies.
+func VerifBatchResult(v interface{}) map[uuid.UUID]error {
+	if r, ok := v.(partitionBatchResult); ok {
+		return map[uuid.UUID]error(r)
+	}
+	return nil
+}
